@@ -38,7 +38,8 @@ fn constructs() -> Vec<&'static str> {
     ]
 }
 
-const CONSTANTS: [&str; 4] = ["7", "abc", "'12", "TRUE"];
+/// the last one is URL-like text whose auto-created link is removed again before the paste (the pasted cell must not gain one)
+const CONSTANTS: [&str; 5] = ["7", "abc", "'12", "TRUE", "www.example.com"];
 
 pub fn corpus(thorough: bool) -> Vec<String> {
     let mut v: Vec<String> = constructs().iter().map(|s| s.to_string()).collect();
@@ -88,6 +89,9 @@ fn observers() -> Vec<(u32, i32, i32, &'static str, &'static str)> {
         (0, 8, 5, "src+1", "name"),
         (0, 8, 6, "SUM(srcr)", "name-range"),
         (1, 8, 1, "Sheet1!C3*2", "cell"),
+        (0, 8, 7, "SUM(C3:C5)", "straddle2"),  // top edge inside the cut area, bottom edge below it
+        (0, 8, 9, "SUM(C2:C3)", "straddle2"),  // bottom edge inside, top edge above
+        (1, 3, 3, "Sheet1!C3*2", "cell"),      // on the other sheet, at the coordinates of the cut cell itself
     ]
 }
 
@@ -124,7 +128,11 @@ fn build(env: &mut c09::Env, lang: &'static str, locale: &'static str, shape: Sh
         }
     }
     um.update_range_style(&crate::ops::area(0, SR, SC, 1, 1), "font.b", "true").ok()?;
-    um.set_cell_link(0, SR, SC, crate::ops::link_external("https://example.com/c16"), None).ok()?;
+    if first == "www.example.com" {
+        um.delete_cell_link(0, SR, SC).ok()?;
+    } else {
+        um.set_cell_link(0, SR, SC, crate::ops::link_external("https://example.com/c16"), None).ok()?;
+    }
     for (s, r, c, f, _) in observers() {
         let t = typed(env, f, lang, locale, r, c)?;
         // observers on Sheet2 are typed with the Sheet1 context only for printing; their text has no relative
@@ -566,6 +574,10 @@ pub fn check(env: &mut c09::Env, c: &Case) -> (bool, Vec<Disagreement>) {
     // observers
     let target_hits_row3 = c.ts == 0 && tr <= 3 && 3 < tr + c.h && tc <= 4 && 2 < tc + c.w;
     for (n, (s, r, cc, f, class)) in obs.iter().enumerate() {
+        // an observer the paste wrote over is gone by design
+        if c.ts == *s && *r >= tr && *r < tr + c.h && *cc >= tc && *cc < tc + c.w {
+            continue;
+        }
         let got = denote(&mut p, &um, *s, *r, *cc);
         let rc_now = fx::stored_rc(um.get_model(), *s, *r, *cc);
         if c.cut {
@@ -585,7 +597,7 @@ pub fn check(env: &mut c09::Env, c: &Case) -> (bool, Vec<Disagreement>) {
                         continue;
                     }
                     // values: unchanged unless the observer reads a range that is not entirely inside the area
-                    let reads_partial = *class == "straddle" || ((*class == "range" || *class == "name-range") && c.w < 2);
+                    let reads_partial = class.starts_with("straddle") || ((*class == "range" || *class == "name-range") && c.w < 2);
                     if !reads_partial && !pasted_bad && !(names_bad && class.starts_with("name")) {
                         let v = cell_value(&um, *s, *r, *cc);
                         if v != obs_val[n] {
@@ -597,7 +609,7 @@ pub fn check(env: &mut c09::Env, c: &Case) -> (bool, Vec<Disagreement>) {
         } else {
             if rc_now != obs_rc[n] {
                 add(format!("observer={} formula-changed-by-copy", class), format!("observer `{}` stored {:?} -> {:?}", f, obs_rc[n], rc_now));
-            } else if !target_hits_row3 && !pasted_bad {
+            } else if !target_hits_row3 && !pasted_bad && *class != "straddle2" {
                 let v = cell_value(&um, *s, *r, *cc);
                 if v != obs_val[n] {
                     add(format!("observer={} value-changed-by-copy", class), format!("observer `{}` value {} -> {}", f, obs_val[n], v));
